@@ -62,6 +62,24 @@ def shift(inp):
                             bad.append({'tau': ta, 'control_time': tc, 'dt': dt, 'start_time': t0, 'step': st, 'post': post,
                                         'control_present_unshifted': r1[1 if post else 0] is not None,
                                         'control_present_shifted': r2[1 if post else 0] is not None})
+    elif kind == 'correlations':
+        # two-time correlations of an explicitly time dependent system: (start, H, times) vs (start+tau, H(. - tau), times+tau)
+        from replay.c03 import _ancilla_pt
+        env0 = np.array([[0.6, 0.1], [0.1, 0.4]])
+        pt, _ = _ancilla_pt(0.2, 5, 0.9 * np.kron(sz, sx), 0.3 * sz, env0)
+        for ta in taus:
+            def mk(s):
+                return oqupy.TimeDependentSystem(lambda t, s=s: (0.4 + 0.5 * np.sin(2 * (t - s))) * sx + 0.3 * (t - s) * sz)
+            rho0 = oqupy.operators.spin_dm('y+')
+            a = oqupy.compute_correlations_nt(mk(0.0), pt, [sx, sz], [(t0, t0 + 0.6), (t0 + 0.2, t0 + 0.8)], ['left', 'left'],
+                                              initial_state=rho0, start_time=t0, progress_type='silent')
+            b = oqupy.compute_correlations_nt(mk(ta), pt, [sx, sz], [(t0 + ta, t0 + ta + 0.6), (t0 + ta + 0.2, t0 + ta + 0.8)], ['left', 'left'],
+                                              initial_state=rho0, start_time=t0 + ta, progress_type='silent')
+            va, vb = np.array(a[1]), np.array(b[1])
+            lab = max(float(np.abs(np.array(b[0][k]) - np.array(a[0][k]) - ta).max()) for k in range(2))
+            dev = float(np.nanmax(np.abs(va - vb))) if va.shape == vb.shape and (np.isnan(va) == np.isnan(vb)).all() else float('inf')
+            if dev > 1e-9 or lab > 1e-9:
+                bad.append({'tau': ta, 'max_change_of_correlation_values': dev, 'time_labels_not_shifted_by_tau': lab})
     elif kind == 'parse':
         from oqupy.system_dynamics import _parse_times
         N = 12
@@ -100,4 +118,4 @@ def shift(inp):
 
 
 # thorough tier (bounded native sweeps): (function, inputs, obligation of the open finding it reproduces or None)
-THOROUGH = [('shift', {}, None)]
+THOROUGH = [('shift', {'kind': k}, None) for k in ('propagators', 'controls', 'parse', 'time', 'steps', 'correlations')]
